@@ -1646,9 +1646,21 @@ public:
       return;
     }
 
-    linear_expression_t e(x);
-    term_id_t tx(build_linexpr(e));
-    rebind_var(y, tx);
+    // y must be a copy of x that is not related to x. Binding y to
+    // the term of x would add the equality x == y. Instead, y is
+    // bound to a fresh term whose ghost variable is an expansion of
+    // the ghost variable of x in the underlying domain.
+    auto it = _var_map.find(x);
+    if (it == _var_map.end()) {
+      // x is unconstrained so is y
+      *this -= y;
+      return;
+    }
+    dom_var_t vx = domvar_of_term(it->second);
+    term_id_t ty = _ttbl.fresh_var();
+    dom_var_t vy = domvar_of_term(ty);
+    _impl.expand(vx, vy);
+    rebind_var(y, ty);
 
     check_terms(__LINE__);
   }
